@@ -353,31 +353,38 @@ Proof.
 Qed.
 
 Lemma flush_stamps : forall h hasbp leader lv stamp ls, Forall upf (flat_map l_buf lv) -> snd stamp = ep ->
+  bumps (snd (flush c t p h hasbp leader lv stamp ls)) = 0 ->
   exists n, stamps_ok t p (fst stamp) ep (snd (flush c t p h hasbp leader lv stamp ls)) n.
 Proof.
-  induction h as [|h' IH]; intros hasbp leader lv stamp ls Hl He.
+  induction h as [|h' IH]; intros hasbp leader lv stamp ls Hl He Hnb.
   - exists 0%nat. apply nosend_none; [reflexivity | intros; reflexivity].
-  - cbn [flush]. rewrite He.
+  - cbn [flush] in *. rewrite He in *.
     destruct (flush_sends_stamps (l_buf (get_level h' lv)) (fst stamp) (in_levels_nth _ _ _ Hl)) as [n [S1 S2]].
     destruct (flush_sends c t p (fst stamp) ep (l_buf (get_level h' lv))) as [es sq'] eqn:Es. cbn [fst snd] in S1, S2.
     pose proof (levels_set_buf_nil _ lv h' Hl) as Hl1.
+    assert (Bz : forall a b, bumps (a ++ b) = 0 -> bumps a = 0 /\ bumps b = 0).
+    { intros a b H. rewrite bumps_app in H. pose proof (bumps_nonneg a). pose proof (bumps_nonneg b). lia. }
     destruct hasbp.
-    + destruct (l_chaser (get_level h' lv) || (h' =? 0)%nat); cbn [snd]; [exists n; exact S1|].
-      destruct (IH true leader (set_buf h' [] lv) (sq', ep) ls Hl1 eq_refl) as [m Sm]. cbn [fst] in Sm.
-      destruct (flush c t p h' true leader (set_buf h' [] lv) (sq', ep) ls) as [res e2]. cbn [snd] in *.
+    + destruct (l_chaser (get_level h' lv) || (h' =? 0)%nat); cbn [snd] in *; [exists n; exact S1|].
+      destruct (flush c t p h' true leader (set_buf h' [] lv) (sq', ep) ls) as [res e2] eqn:Ef. cbn [snd] in *.
+      destruct (Bz _ _ Hnb) as [_ B2].
+      destruct (IH true leader (set_buf h' [] lv) (sq', ep) ls Hl1 eq_refl ltac:(rewrite Ef; exact B2)) as [m Sm]. rewrite Ef in Sm. cbn [fst snd] in Sm.
       exists (n + m)%nat. apply stamps_ok_app; [exact S1 | rewrite <- S2; exact Sm].
     + destruct (next_lres ls) as [[b|e] r].
-      * destruct (l_chaser (get_level h' lv) || (h' =? 0)%nat); cbn [snd].
+      * destruct (l_chaser (get_level h' lv) || (h' =? 0)%nat); cbn [snd] in *.
         -- exists (0 + n)%nat. apply stamps_ok_app; [apply leader_stamps | replace (fst stamp + Z.of_nat 0) with (fst stamp) by lia; exact S1].
-        -- destruct (IH true b (set_buf h' [] lv) (sq', ep) r Hl1 eq_refl) as [m Sm]. cbn [fst] in Sm.
-           destruct (flush c t p h' true b (set_buf h' [] lv) (sq', ep) r) as [res e2]. cbn [snd] in *.
+        -- destruct (flush c t p h' true b (set_buf h' [] lv) (sq', ep) r) as [res e2] eqn:Ef. cbn [snd] in *.
+           destruct (Bz _ _ Hnb) as [_ B2].
+           destruct (IH true b (set_buf h' [] lv) (sq', ep) r Hl1 eq_refl ltac:(rewrite Ef; exact B2)) as [m Sm]. rewrite Ef in Sm. cbn [fst snd] in Sm.
            exists ((0 + n) + m)%nat. apply stamps_ok_app.
            ++ apply stamps_ok_app; [apply leader_stamps | replace (fst stamp + Z.of_nat 0) with (fst stamp) by lia; exact S1].
            ++ replace (fst stamp + Z.of_nat (0 + n)) with sq' by (rewrite S2; cbn; lia). exact Sm.
-      * destruct (l_chaser (get_level h' lv) || (h' =? 0)%nat); cbn [snd].
+      * destruct (l_chaser (get_level h' lv) || (h' =? 0)%nat); cbn [snd] in *.
         -- exists 0%nat. apply nosend_none; [apply ns_return_errors | intros; apply cs_return_errors].
-        -- destruct (IH false leader (set_buf h' [] lv) (fst stamp, ep) r Hl1 eq_refl) as [m Sm]. cbn [fst] in Sm.
-           destruct (flush c t p h' false leader (set_buf h' [] lv) (fst stamp, ep) r) as [res e2]. cbn [snd] in *.
+        -- set (nb := bumps (return_errors (l_buf (get_level h' lv)) e)) in *.
+           destruct (flush c t p h' false leader (set_buf h' [] lv) (if 0 <? nb then (0, ep + nb) else stamp) r) as [res e2] eqn:Ef. cbn [snd] in *.
+           destruct (Bz _ _ Hnb) as [B1 B2]. fold nb in B1. rewrite B1 in Ef. cbn in Ef.
+           destruct (IH false leader (set_buf h' [] lv) stamp r Hl1 He ltac:(rewrite Ef; exact B2)) as [m Sm]. rewrite Ef in Sm. cbn [snd] in Sm.
            exists (0 + m)%nat. apply stamps_ok_app; [apply nosend_none; [apply ns_return_errors | intros; apply cs_return_errors]|].
            replace (fst stamp + Z.of_nat 0) with (fst stamp) by lia. exact Sm.
 Qed.
@@ -416,30 +423,34 @@ Proof.
 Qed.
 
 Lemma pp_step_stamps st m ab stamp ls : upf m -> Forall upf (pp_msgs st) -> snd stamp = ep ->
+  bumps (snd (pp_step c t p st m ab stamp ls)) = 0 ->
   exists n, stamps_ok t p (fst stamp) ep (snd (pp_step c t p st m ab stamp ls)) n.
 Proof.
-  intros Hm Hl He. unfold pp_step.
-  set (e1 := if p_has_bp st && ab then [EUnref] else []).
+  intros Hm Hl He Hnb. unfold pp_step in *.
+  set (e1 := if p_has_bp st && ab then [EUnref] else []) in *.
   assert (He1 : stamps_ok t p (fst stamp) ep e1 0) by (subst e1; destruct (p_has_bp st && ab); apply stamps_ok_none; try reflexivity; intros; reflexivity).
-  set (st1 := if p_has_bp st && ab then _ else st).
+  set (st1 := if p_has_bp st && ab then _ else st) in *.
   assert (Hl1 : Forall upf (flat_map l_buf (p_levels st1))) by (subst st1; destruct (p_has_bp st && ab); exact Hl).
   clearbody st1 e1.
   assert (Hx : forall x, nosend x = true -> (forall k, cs k x = 0) -> exists n, stamps_ok t p (fst stamp) ep (e1 ++ x) n).
   { intros x H1 H2. exists (0 + 0)%nat. apply stamps_ok_app; [exact He1 | apply nosend_none; assumption]. }
-  destruct (p_hwm st1 <? m_retries m)%nat.
+  destruct (p_hwm st1 <? m_retries m)%nat eqn:C1.
   - destruct (c_retry_max c <? m_retries m)%nat; [cbn [snd]; apply Hx; [reflexivity | intros; reflexivity]|].
     destruct (negb (p_has_bp st1)); [cbn [snd]; apply Hx; [reflexivity | intros; reflexivity]|].
     apply pp_forward_stamps; [exact Hm | exact He|].
     replace 0%nat with (0 + 0)%nat by reflexivity. apply stamps_ok_app; [exact He1|].
     apply stamps_ok_none; [|intros; reflexivity]. unfold newL. cbn [sent_cur flat_map app filter].
     rewrite snew_marker; [reflexivity | discriminate].
-  - destruct (0 <? p_hwm st1)%nat; [|apply pp_forward_stamps; assumption].
-    destruct (m_retries m <? p_hwm st1)%nat.
+  - destruct (0 <? p_hwm st1)%nat eqn:C2; [|apply pp_forward_stamps; assumption].
+    destruct (m_retries m <? p_hwm st1)%nat eqn:C3.
     + destruct (length (p_levels st1) <=? m_retries m)%nat; [cbn [snd]; apply Hx; [reflexivity | intros; reflexivity]|].
       destruct (is_fin m); cbn [snd]; [apply Hx; [reflexivity | intros; reflexivity] | exists 0%nat; exact He1].
-    + destruct (is_fin m); [|apply pp_forward_stamps; assumption].
+    + destruct (is_fin m) eqn:C4; [|apply pp_forward_stamps; assumption].
+      assert (Hnb' : bumps (snd (flush c t p (p_hwm st1) (p_has_bp st1) (p_leader st1) (set_chaser (p_hwm st1) false (p_levels st1)) stamp ls)) = 0).
+      { destruct (flush c t p (p_hwm st1) (p_has_bp st1) (p_leader st1) (set_chaser (p_hwm st1) false (p_levels st1)) stamp ls) as [[[[h' hasbp] leader] lv'] effs].
+        cbn [snd] in *. rewrite !bumps_app in Hnb. pose proof (bumps_nonneg e1). pose proof (bumps_nonneg effs). pose proof (bumps_nonneg [EDone m]). lia. }
       destruct (flush_stamps c t p ep (p_hwm st1) (p_has_bp st1) (p_leader st1) (set_chaser (p_hwm st1) false (p_levels st1)) stamp ls
-                  (levels_set_chaser _ _ _ _ Hl1) He) as [n Sn].
+                  (levels_set_chaser _ _ _ _ Hl1) He Hnb') as [n Sn].
       destruct (flush c t p (p_hwm st1) (p_has_bp st1) (p_leader st1) _ stamp ls) as [[[[h' hasbp] leader] lv'] effs]. cbn [snd] in *.
       exists (0 + (n + 0))%nat. apply stamps_ok_app; [exact He1|]. apply stamps_ok_app; [rewrite Z.add_0_r; exact Sn|].
       apply nosend_none; [reflexivity | intros; reflexivity].
